@@ -109,8 +109,8 @@ func (t *tracer) call(cmd string, args ...string) {
 		}
 
 		qs, err := syntax.Quote(s, syntax.LangBash)
-		if err != nil { // should never happen
-			panic(err)
+		if err != nil { // e.g. a null byte; trace the raw arguments
+			qs = s
 		}
 		t.stringf("%s %s", cmd, qs)
 	} else {
